@@ -505,6 +505,12 @@ func (css *Consensus) batchWorker() {
 			// Commit
 			if err := css.batchingState.Commit(css.ctx); err != nil {
 				logger.Errorf("error commiting batch after reaching max age: %s", err)
+				// The timer has expired and its channel is drained:
+				// re-arm it so that the commit is retried. Otherwise
+				// the batch stays uncommitted until max size is
+				// reached, and the size path then blocks forever
+				// draining the already-drained timer.
+				batchTimer.Reset(maxAge)
 				verifHook("commit", "peer", css.host.ID(), "reason", "age", "cur", batchCurSize, "ok", false)
 				continue
 			}
